@@ -230,7 +230,8 @@ def run_unit(u, desc, tier, seed):
                 else:
                     u.notes.append('witness mismatch on %s: real %s symbolic %s' % (tag, np.round(realv, 6).tolist(), np.round(symv, 6).tolist()))
             except Exception as ex:
-                u.notes.append('witness replay failed on %s: %r' % (tag, ex))
+                import traceback
+                u.notes.append('witness replay failed on %s: %r %s' % (tag, ex, traceback.format_exc()[-400:]))
         if sel is None:
             # fewer than three vectors were selected: the reduced basis is not within the search range uvw=1 (outside the quantifier)
             u.notes.append('path %s: no complete basis within the search range (outside the bound)' % tag)
